@@ -3,6 +3,8 @@ use std::io::{BufRead, Read, Seek, SeekFrom};
 use std::sync::atomic::{AtomicUsize, Ordering};
 use std::sync::Arc;
 
+pub const SPIN_LIMIT: usize = 20_000;
+
 #[derive(Default)]
 pub struct Counters {
     pub fill_buf: AtomicUsize,
@@ -53,6 +55,10 @@ impl Read for PieceReader {
 impl BufRead for PieceReader {
     fn fill_buf(&mut self) -> std::io::Result<&[u8]> {
         self.counters.fill_buf.fetch_add(1, Ordering::Relaxed);
+        // a caller that keeps asking without consuming is spinning: break its loop so that the case can be reported
+        if self.counters.zero_consume_run.load(Ordering::Relaxed) > SPIN_LIMIT {
+            return Err(std::io::Error::new(std::io::ErrorKind::Other, "spin detected by the harness"));
+        }
         let end = self.piece_end();
         let start = self.pos.min(end);
         Ok(&self.data[start..end])
